@@ -10,6 +10,7 @@ mod model;
 mod props;
 mod shim;
 mod tlsfix;
+mod tlspeer;
 mod transport;
 mod vals;
 mod wire;
@@ -66,6 +67,7 @@ fn main() {
         "C13" => dispatch(props::c13::C13, mode, arg),
         "C14" => dispatch(props::c14::C14, mode, arg),
         "C15" => dispatch(props::c15::C15, mode, arg),
+        "C18" => dispatch(props::c18::C18, mode, arg),
         "C19" => dispatch(props::c19::C19, mode, arg),
         "C20" => dispatch(props::c20::C20, mode, arg),
         "C16" => dispatch(props::c16::C16, mode, arg),
